@@ -17,6 +17,7 @@ from __future__ import annotations
 import ast
 
 from harness.common import TranslateError, ast_digest, src_text
+from translate import c15_norm
 
 # Formats whose codecs exist in the source but are deliberately NOT modelled (the oracle search covers them).
 NOT_MODELLED = {'rgb888_bluescreen', 'bgr888_bluescreen'}
@@ -627,6 +628,7 @@ def _loop_nest(fn: ast.FunctionDef, count_name: str) -> dict:
     for st in ast.walk(fn):
         if isinstance(st, ast.For) and ast.unparse(st.iter) == f'reversed(range({count_name}))':
             order = ['mip_reversed']
+            roles = {ast.unparse(st.target): 'mip_reversed'}     # loop variable -> what it counts (names do not matter)
             cur = st
             body = cur.body
             dims = {}
@@ -645,6 +647,7 @@ def _loop_nest(fn: ast.FunctionDef, count_name: str) -> dict:
                     order.append('depth_or_side')
                 else:
                     _err(cur, f'{fn.name}: unknown loop {it}')
+                roles[ast.unparse(cur.target)] = order[-1]
                 body = cur.body
             key = None
             for b in ast.walk(cur):
@@ -652,7 +655,7 @@ def _loop_nest(fn: ast.FunctionDef, count_name: str) -> dict:
                     key = [ast.unparse(e) for e in b.slice.elts]
             if key is None:
                 _err(st, f'{fn.name}: frame table access not found')
-            return {'order': order, 'key': key, 'var': st.target.id, 'dims': dims, 'line': st.lineno}
+            return {'order': order, 'key': key, 'key_roles': [roles.get(k, k) for k in key], 'var': st.target.id, 'dims': dims, 'line': st.lineno}
     _err(fn, f'{fn.name}: mipmap loop over reversed(range({count_name})) not found')
 
 
@@ -718,7 +721,17 @@ def _zexpr(node: ast.expr, names: dict[str, str]) -> str:
     _err(node, f'arithmetic not understood: {s}')
 
 
-def _pixel_access(fn: ast.FunctionDef) -> dict:
+def _split_const(node: ast.expr) -> tuple[ast.expr, int]:
+    """E + k  ->  (E, k);  E -> (E, 0)"""
+    if isinstance(node, ast.BinOp) and isinstance(node.op, ast.Add) and isinstance(node.right, ast.Constant) and type(node.right.value) is int:
+        return node.left, node.right.value
+    return node, 0
+
+
+def _pixel_access(cls: ast.ClassDef, fn: ast.FunctionDef, tree: ast.Module | None = None) -> dict:
+    # helper methods of the same class (e.g. a shared bounds check + offset computation) are inlined first; locals that
+    # merely name an expression (`off = (y * self.width + x) * 4`) are replaced by the expression (c15_norm)
+    fn = c15_norm.inline_self_calls(cls, fn, tree=tree)
     unpack = [st for st in fn.body if isinstance(st, ast.Assign) and ast.unparse(st.targets[0]) in ('(x, y)', 'x, y')]
     if len(unpack) != 1 or ast.unparse(unpack[0].value) != 'item':
         _err(fn, f'{fn.name}: `x, y = item` not found')
@@ -729,34 +742,35 @@ def _pixel_access(fn: ast.FunctionDef) -> dict:
         if exc is None or 'IndexError' not in ast.unparse(exc) or c.orelse:
             _err(c, f'{fn.name}: raise in bounds test is not IndexError')
         atoms += _nnf_reject(c.test, False)
-    offs = [st for st in fn.body if isinstance(st, ast.Assign) and ast.unparse(st.targets[0]) == 'off']
-    if len(offs) != 1:
-        _err(fn, f'{fn.name}: `off = ...` not found')
     names = {'x': 'x', 'y': 'y', 'self.width': 'w', 'self.height': 'h'}
-    off = _zexpr(offs[0].value, names)
-    # every use of self._data must be off .. off+3, after the test
+    # every use of self._data must be E+0 .. E+3 for ONE offset expression E, after the test
     first_use = None
     span = 0
+    bases: dict[str, ast.expr] = {}
     for st in fn.body:
         for n in ast.walk(st):
             if isinstance(n, ast.Subscript) and ast.unparse(n.value) == 'self._data':
-                first_use = first_use or st.lineno
+                first_use = first_use if first_use is not None else c15_norm.seq(st)
                 if isinstance(n.slice, ast.Slice):
-                    lo, hi = ast.unparse(n.slice.lower), ast.unparse(n.slice.upper)
-                    if lo != 'off' or not hi.startswith('off + ') or n.slice.step is not None:
-                        _err(n, f'{fn.name}: data slice not off:off+k')
-                    span = max(span, int(hi[6:]))
+                    if n.slice.lower is None or n.slice.upper is None or n.slice.step is not None:
+                        _err(n, f'{fn.name}: data slice not E:E+k')
+                    (lo, k0), (hi, k1) = _split_const(n.slice.lower), _split_const(n.slice.upper)
+                    if ast.unparse(lo) != ast.unparse(hi) or k0 != 0 or k1 <= 0:
+                        _err(n, f'{fn.name}: data slice not E:E+k')
+                    bases[ast.unparse(lo)] = lo
+                    span = max(span, k1)
                 else:
-                    s = ast.unparse(n.slice)
-                    if s == 'off':
-                        span = max(span, 1)
-                    elif s.startswith('off + ') and s[6:].isdigit():
-                        span = max(span, int(s[6:]) + 1)
-                    else:
-                        _err(n, f'{fn.name}: data index not off+k: {s}')
+                    e, k = _split_const(n.slice)
+                    if k < 0:
+                        _err(n, f'{fn.name}: data index not E+k: {ast.unparse(n.slice)}')
+                    bases[ast.unparse(e)] = e
+                    span = max(span, k + 1)
     if first_use is None:
         _err(fn, f'{fn.name}: no pixel data access found')
-    if checks and max(c.lineno for c in checks) > first_use:
+    if len(bases) != 1:
+        _err(fn, f'{fn.name}: pixel data accessed at more than one offset expression: {sorted(bases)}')
+    off = _zexpr(next(iter(bases.values())), names)
+    if checks and max(c15_norm.seq(c) for c in checks) > first_use:
         _err(fn, f'{fn.name}: bounds test after the data access')
     return {'atoms': atoms, 'off': off, 'span': span, 'line': fn.lineno}
 
@@ -798,79 +812,464 @@ def _scale_down(fn: ast.FunctionDef) -> dict:
     got = [d[0] for d in defs]
     if sorted(got) != ['horiz_off', 'per_column', 'per_row', 'vert_off']:
         _err(fn, f'scale_down: offsets computed: {got}')
-    # filter branches
+    # filter branches: both are evaluated SYMBOLICALLY (locals are names for polynomials / sums of texels, loops over a
+    # literal range of channels are unrolled), so renamed locals, extra locals and reordered addends do not matter
     if i >= len(body) or not isinstance(body[i], ast.If):
         _err(fn, 'scale_down: filter dispatch not found')
     disp = body[i]
     near, bil = disp, (disp.orelse[0] if disp.orelse and isinstance(disp.orelse[0], ast.If) else None)
     if bil is None or ast.unparse(bil.test) != 'filt.value == 4':
         _err(disp, 'scale_down: bilinear branch not found')
-    local = dict(names, x='x', y='y')
-    offs = {}
-    terms: list[tuple[bool, bool]] = []
-    div = None
-    for n in ast.walk(bil):
-        if isinstance(n, ast.Assign) and isinstance(n.targets[0], ast.Name) and n.targets[0].id in ('off', 'off2'):
-            offs[n.targets[0].id] = _zexpr(n.value, local)
-        if isinstance(n, ast.Assign) and isinstance(n.targets[0], ast.Subscript) and ast.unparse(n.targets[0]) == 'dest[off + channel]':
-            v = n.value
-            if not (isinstance(v, ast.BinOp) and isinstance(v.op, ast.FloorDiv) and isinstance(v.right, ast.Constant)):
-                _err(n, 'scale_down: bilinear value is not a floor division')
-            div = v.right.value
-            def addends(e):
-                if isinstance(e, ast.BinOp) and isinstance(e.op, ast.Add):
-                    return addends(e.left) + addends(e.right)
-                return [e]
-            for t in addends(v.left):
-                if not (isinstance(t, ast.Subscript) and ast.unparse(t.value) == 'src'):
-                    _err(t, 'scale_down: bilinear addend is not src[...]')
-                parts = sorted(ast.unparse(p) for p in addends(t.slice))
-                base = [p for p in parts if p not in ('horiz_off', 'vert_off')]
-                if base != ['channel', 'off2'] or len(parts) != len(set(parts)):
-                    _err(t, f'scale_down: bilinear index {parts}')
-                terms.append(('horiz_off' in parts, 'vert_off' in parts))
-    if div is None or set(offs) != {'off', 'off2'}:
+    syms = {'width', 'height', 'src_width', 'src_height', 'horiz_off', 'vert_off', 'per_row', 'per_column'}
+    brec = _sym_run(bil.body, syms)
+    px = [r for r in brec if r[0] == 'px']
+    if len(px) != len(brec) or not px:
         _err(bil, 'scale_down: bilinear body not recognised')
-    # nearest: pos_off table
-    near_terms = None
-    for n in ast.walk(near.body[0] if near.body else near):
-        pass
-    for n in ast.walk(near):
-        if isinstance(n, ast.Assign) and isinstance(n.targets[0], ast.Name) and n.targets[0].id == 'pos_off':
-            v = n.value
-            if isinstance(v, ast.Subscript) and isinstance(v.value, ast.List) and ast.unparse(v.slice) == 'filt.value':
-                near_terms = []
-                for e in v.value.elts:
-                    s = ast.unparse(e)
-                    parts = sorted(p.strip() for p in s.split('+'))
-                    if not set(parts) <= {'0', 'horiz_off', 'vert_off'}:
-                        _err(e, f'scale_down: nearest offset {s}')
-                    near_terms.append(('horiz_off' in parts, 'vert_off' in parts))
-    if near_terms is None:
+    dst = off2 = div = None
+    terms: list[tuple[bool, bool]] | None = None
+    H, V = _p_var('horiz_off'), _p_var('vert_off')
+    allowed = {_p_key({}): (False, False), _p_key(H): (True, False), _p_key(V): (False, True), _p_key(_p_add(H, V)): (True, True)}
+    chans = set()
+    for _, idx, val in px:
+        if val[0] != 'div':
+            _err(bil, 'scale_down: bilinear value is not a floor division of a sum of texels')
+        # the channel is the constant part of the destination index
+        c = idx.get((), 0)
+        chans.add(c)
+        d = _p_add(idx, _p_const(c), -1)
+        srcs = [_p_add(q, _p_const(c), -1) for q in val[1]]
+        base = [q for q in srcs if not any(('horiz_off' in m or 'vert_off' in m) for m in q)]
+        if len(base) != 1:
+            _err(bil, 'scale_down: bilinear addends have no common upper-left texel')
+        tt = []
+        for q in srcs:
+            k = _p_key(_p_add(q, base[0], -1))
+            if k not in allowed:
+                _err(bil, 'scale_down: bilinear addend is not the block corner + {0, horiz_off, vert_off, both}')
+            tt.append(allowed[k])
+        if dst is None:
+            dst, off2, div, terms = d, base[0], val[2], tt
+        elif _p_key(d) != _p_key(dst) or _p_key(base[0]) != _p_key(off2) or val[2] != div or tt != terms:
+            _err(bil, 'scale_down: the channels are not computed alike')
+    if chans != {0, 1, 2, 3}:
+        _err(bil, f'scale_down: bilinear channels written: {sorted(chans)}')
+    if not (_p_vars(dst) <= {'width', 'x', 'y'} and _p_vars(off2) <= {'per_row', 'per_column', 'x', 'y'}):
+        _err(bil, 'scale_down: bilinear offsets use unexpected names')
+    # nearest: dest[E:E+4] = src[E2 + T[filt.value] : E2 + T[filt.value] + 4]
+    nrec = _sym_run(near.body, syms)
+    if len(nrec) != 1 or nrec[0][0] != 'slice':
+        _err(near, 'scale_down: nearest-neighbour copy not recognised')
+    _, lo, hi, lo2, hi2 = nrec[0]
+    if lo2[0] != 'tab' or hi2[0] != 'tab' or len(lo2[1]) != len(hi2[1]) or lo[0] != 'p' or hi[0] != 'p':
         _err(near, 'scale_down: nearest-neighbour offset table not found')
-    return {'defs': defs, 'off': offs['off'], 'off2': offs['off2'], 'terms': terms, 'div': div, 'nearest': near_terms,
-            'line': fn.lineno}
+    near_terms = []
+    same = _p_key(lo[1]) == _p_key(dst) and _p_key(_p_add(hi[1], lo[1], -1)) == _p_key(_p_const(4))
+    for a, bq in zip(lo2[1], hi2[1]):
+        k = _p_key(_p_add(a, off2, -1))
+        if k not in allowed:
+            _err(near, 'scale_down: nearest offset is not the block corner + {0, horiz_off, vert_off, both}')
+        near_terms.append(allowed[k])
+        same = same and _p_key(_p_add(bq, a, -1)) == _p_key(_p_const(4))
+    ren = {'width': 'w', 'x': 'x', 'y': 'y', 'per_row': 'per_row', 'per_column': 'per_column'}
+    return {'defs': defs, 'off': _p_coq(dst, ren), 'off2': _p_coq(off2, ren), 'terms': terms, 'div': div, 'nearest': near_terms,
+            'nearest_same_offsets': bool(same), 'line': fn.lineno}
+
+
+# ---- polynomials over names (symbolic evaluation of index arithmetic) --------------------------------------------
+def _p_const(c: int) -> dict:
+    return {(): c} if c else {}
+
+
+def _p_var(v: str) -> dict:
+    return {(v,): 1}
+
+
+def _p_add(a: dict, b: dict, sign: int = 1) -> dict:
+    out = dict(a)
+    for m, c in b.items():
+        out[m] = out.get(m, 0) + sign * c
+        if out[m] == 0:
+            del out[m]
+    return out
+
+
+def _p_mul(a: dict, b: dict) -> dict:
+    out: dict = {}
+    for m1, c1 in a.items():
+        for m2, c2 in b.items():
+            m = tuple(sorted(m1 + m2))
+            out[m] = out.get(m, 0) + c1 * c2
+            if out[m] == 0:
+                del out[m]
+    return out
+
+
+def _p_key(a: dict):
+    return tuple(sorted(a.items()))
+
+
+def _p_vars(a: dict) -> set[str]:
+    return {v for m in a for v in m}
+
+
+def _p_coq(a: dict, ren: dict[str, str]) -> str:
+    if not a:
+        return '0'
+    parts = []
+    for m, c in sorted(a.items()):
+        f = [str(c) if c >= 0 else f'({c})'] + [ren[v] for v in m]
+        parts.append('(' + ' * '.join(f) + ')')
+    return '(' + ' + '.join(parts) + ')'
+
+
+def _sym_run(stmts: list[ast.stmt], syms: set[str]) -> list[tuple]:
+    """Symbolic run of straight-line index arithmetic inside `for <y> in range(height): for <x> in range(width):` loops.
+    -> records ('px', index polynomial, ('div', [source index polynomials], n))  for  dest[i] = (src[a] + src[b] + ...) // n
+               ('slice', lo, hi, lo2, hi2)                                       for  dest[lo:hi] = src[lo2:hi2]
+    A local is whatever its defining expression evaluates to; `for c in range(4)` / `in (0, 1, 2, 3)` is unrolled."""
+    out: list[tuple] = []
+
+    def ev(node: ast.expr, env: dict):
+        if isinstance(node, ast.Constant) and type(node.value) is int:
+            return ('p', _p_const(node.value))
+        if isinstance(node, ast.Name):
+            if node.id in env:
+                return env[node.id]
+            if node.id in syms:
+                return ('p', _p_var(node.id))
+            _err(node, f'arithmetic not understood: {node.id}')
+        if isinstance(node, ast.BinOp) and isinstance(node.op, (ast.Add, ast.Sub, ast.Mult)):
+            a, b = ev(node.left, env), ev(node.right, env)
+            if isinstance(node.op, ast.Mult):
+                if a[0] == b[0] == 'p':
+                    return ('p', _p_mul(a[1], b[1]))
+            elif a[0] == b[0] == 'p':
+                return ('p', _p_add(a[1], b[1], 1 if isinstance(node.op, ast.Add) else -1))
+            elif isinstance(node.op, ast.Add) and a[0] == b[0] == 'src':
+                return ('src', a[1] + b[1])
+            elif isinstance(node.op, ast.Add) and {a[0], b[0]} == {'p', 'tab'}:
+                pp, tt = (a, b) if a[0] == 'p' else (b, a)
+                return ('tab', [_p_add(t, pp[1]) for t in tt[1]])
+            _err(node, f'arithmetic not understood: {ast.unparse(node)}')
+        if isinstance(node, ast.BinOp) and isinstance(node.op, ast.FloorDiv):
+            a = ev(node.left, env)
+            if a[0] == 'src' and isinstance(node.right, ast.Constant) and type(node.right.value) is int:
+                return ('div', a[1], node.right.value)
+            _err(node, f'division not understood: {ast.unparse(node)}')
+        if isinstance(node, ast.Subscript) and isinstance(node.value, ast.Name) and node.value.id == 'src' and node.value.id not in env:
+            if isinstance(node.slice, ast.Slice):
+                if node.slice.lower is None or node.slice.upper is None or node.slice.step is not None:
+                    _err(node, 'source slice without bounds')
+                return ('srcslice', ev(node.slice.lower, env), ev(node.slice.upper, env))
+            i_ = ev(node.slice, env)
+            if i_[0] != 'p':
+                _err(node, 'source index is not arithmetic')
+            return ('src', [i_[1]])
+        if isinstance(node, ast.Subscript) and isinstance(node.value, (ast.List, ast.Tuple)) and ast.unparse(node.slice) == 'filt.value':
+            es = [ev(e, env) for e in node.value.elts]
+            if any(e[0] != 'p' for e in es):
+                _err(node, 'offset table entries are not arithmetic')
+            return ('tab', [e[1] for e in es])
+        _err(node, f'arithmetic not understood: {ast.unparse(node)}')
+
+    def run(body: list[ast.stmt], env: dict) -> None:
+        for st in body:
+            if isinstance(st, ast.Expr) and isinstance(st.value, ast.Constant):
+                continue
+            if isinstance(st, (ast.Assign, ast.AnnAssign)) and (st.value is not None):
+                tgts = st.targets if isinstance(st, ast.Assign) else [st.target]
+                if len(tgts) != 1:
+                    _err(st, 'scale_down: chained assignment')
+                t = tgts[0]
+                if isinstance(t, ast.Name):
+                    if t.id in syms or t.id in ('src', 'dest'):
+                        _err(st, f'scale_down: {t.id} is rebound inside a filter branch')
+                    env[t.id] = ev(st.value, env)
+                    continue
+                if isinstance(t, ast.Subscript) and isinstance(t.value, ast.Name) and t.value.id == 'dest' and 'dest' not in env:
+                    v = ev(st.value, env)
+                    if isinstance(t.slice, ast.Slice):
+                        if t.slice.lower is None or t.slice.upper is None or t.slice.step is not None or v[0] != 'srcslice':
+                            _err(st, 'scale_down: slice copy not understood')
+                        out.append(('slice', ev(t.slice.lower, env), ev(t.slice.upper, env), v[1], v[2]))
+                    else:
+                        i_ = ev(t.slice, env)
+                        if i_[0] != 'p':
+                            _err(st, 'scale_down: destination index is not arithmetic')
+                        out.append(('px', i_[1], v))
+                    continue
+                _err(st, f'scale_down: assignment not understood: {ast.unparse(st)[:60]}')
+            if isinstance(st, ast.For) and isinstance(st.target, ast.Name) and not st.orelse:
+                it = st.iter
+                its = ast.unparse(it)
+                if its in ('range(height)', 'range(width)'):
+                    role = 'y' if its == 'range(height)' else 'x'
+                    if any(role in _p_vars(v[1]) for v in env.values() if v[0] == 'p'):
+                        _err(st, f'scale_down: two loops over {its}')
+                    run(st.body, dict(env, **{st.target.id: ('p', _p_var(role))}))
+                    continue
+                vals = None
+                if isinstance(it, ast.Call) and isinstance(it.func, ast.Name) and it.func.id == 'range' and len(it.args) == 1 \
+                        and isinstance(it.args[0], ast.Constant) and type(it.args[0].value) is int and 0 < it.args[0].value <= 8:
+                    vals = list(range(it.args[0].value))
+                elif isinstance(it, (ast.Tuple, ast.List)) and it.elts and all(isinstance(e, ast.Constant) and type(e.value) is int for e in it.elts):
+                    vals = [e.value for e in it.elts]
+                if vals is None:
+                    _err(st, f'scale_down: loop not understood: {its}')
+                for c in vals:
+                    run(st.body, dict(env, **{st.target.id: ('p', _p_const(c))}))
+                continue
+            _err(st, f'scale_down: statement not understood: {ast.unparse(st)[:60]}')
+    run(stmts, {})
+    return out
+
+
+# ---- side lists (cubemaps with / without sphere map) -------------------------------------------------------------
+def _if_else(stmts: list[ast.stmt]) -> list[ast.stmt]:
+    """`if c: return A` followed by the rest of the block  ==  `if c: return A  else: <rest>`"""
+    stmts = [s for s in stmts if not (isinstance(s, ast.Expr) and isinstance(s.value, ast.Constant))]
+    for i, st in enumerate(stmts):
+        if isinstance(st, ast.If) and not st.orelse and st.body and isinstance(st.body[-1], ast.Return) and stmts[i + 1:]:
+            new = ast.If(test=st.test, body=st.body, orelse=_if_else(stmts[i + 1:]))
+            return stmts[:i] + [_positive(ast.copy_location(new, st))]
+    return [_positive(s) if isinstance(s, ast.If) else s for s in stmts]
+
+
+def _positive(st: ast.If) -> ast.If:
+    """`if A not in B: X else: Y`  ==  `if A in B: Y else: X`  (likewise `is not`, `!=`, `not c`) when both branches exist"""
+    t = st.test
+    neg = (isinstance(t, ast.UnaryOp) and isinstance(t.op, ast.Not)) or \
+          (isinstance(t, ast.Compare) and len(t.ops) == 1 and isinstance(t.ops[0], (ast.NotIn, ast.IsNot, ast.NotEq)))
+    if neg and st.orelse:
+        return ast.copy_location(ast.If(test=c15_norm.negate(t), body=st.orelse, orelse=st.body), st)
+    return st
+
+
+def _side_list(tree: ast.Module, node: ast.expr, depth: int = 0) -> list[int]:
+    """value of a module-level expression denoting a list of CubeSide members, as indexes into the enum"""
+    if depth > 6:
+        _err(node, 'side list definition too deep')
+    cube = _find_class(tree, 'CubeSide')
+    members = [st.targets[0].id for st in cube.body if isinstance(st, ast.Assign) and isinstance(st.targets[0], ast.Name)
+               and isinstance(st.value, ast.Constant) and type(st.value.value) is int]
+    values = [st.value.value for st in cube.body if isinstance(st, ast.Assign) and isinstance(st.targets[0], ast.Name)
+              and isinstance(st.value, ast.Constant) and type(st.value.value) is int]
+    if len(set(values)) != len(values) or not members:
+        _err(cube, 'CubeSide has aliases or no members')
+    s = ast.unparse(node)
+    if s in ('list(CubeSide)', 'tuple(CubeSide)'):
+        return list(range(len(members)))
+    if isinstance(node, (ast.List, ast.Tuple)):
+        out = []
+        for e in node.elts:
+            if isinstance(e, ast.Attribute) and ast.unparse(e.value) == 'CubeSide' and e.attr in members:
+                out.append(members.index(e.attr))
+            else:
+                _err(e, f'side list element not understood: {ast.unparse(e)}')
+        return out
+    if isinstance(node, ast.Call) and ast.unparse(node.func) in ('list', 'tuple') and len(node.args) == 1:
+        return _side_list(tree, node.args[0], depth + 1)
+    if isinstance(node, ast.Subscript) and isinstance(node.slice, ast.Slice) and node.slice.step is None:
+        base = _side_list(tree, node.value, depth + 1)
+        def bound(b):
+            if b is None:
+                return None
+            try:
+                v = ast.literal_eval(b)
+            except Exception:
+                _err(b, 'slice bound of a side list is not a literal')
+            if type(v) is not int:
+                _err(b, 'slice bound of a side list is not an integer')
+            return v
+        return base[bound(node.slice.lower):bound(node.slice.upper)]
+    if isinstance(node, ast.Name):
+        defs = [st for st in tree.body if isinstance(st, (ast.Assign, ast.AnnAssign)) and st.value is not None
+                and any(isinstance(t, ast.Name) and t.id == node.id for t in (st.targets if isinstance(st, ast.Assign) else [st.target]))]
+        if len(defs) != 1:
+            _err(node, f'{node.id}: expected one module-level definition, found {len(defs)}')
+        return _side_list(tree, defs[0].value, depth + 1)
+    _err(node, f'side list not understood: {s}')
+
+
+def _sides_info(tree: ast.Module, vtf: ast.ClassDef) -> dict:
+    dr = _find_method(vtf, '_depth_range')
+    params = [a.arg for a in dr.args.args]
+    if dr.args.vararg or dr.args.kwarg or dr.args.kwonlyargs or not params or params[0] != 'self' or len(params) > 2:
+        _err(dr, f'_depth_range parameters: {params}')
+    body = _if_else(dr.body)
+    pname = params[1] if len(params) == 2 else None
+    falls_back = False
+    if pname is not None:
+        if len(dr.args.defaults) != 1 or not (isinstance(dr.args.defaults[0], ast.Constant) and dr.args.defaults[0].value is None):
+            _err(dr, '_depth_range: the version parameter must default to None')
+        if body and isinstance(body[0], ast.If) and ast.unparse(body[0].test) == f'{pname} is None' and not body[0].orelse \
+                and len(body[0].body) == 1 and ast.unparse(body[0].body[0]) == f'{pname} = self.version[1]':
+            falls_back = True
+            body = body[1:]
+        else:
+            _err(dr, '_depth_range: `if <param> is None: <param> = self.version[1]` not found')
+    if len(body) != 1 or not isinstance(body[0], ast.If) or ast.unparse(body[0].test) not in ('VTFFlags.ENVMAP in self.flags',):
+        _err(dr, '_depth_range: `if VTFFlags.ENVMAP in self.flags` not found')
+    top = body[0]
+    flat = _if_else(top.orelse)
+    if len(flat) != 1 or not isinstance(flat[0], ast.Return) or ast.unparse(flat[0].value) != 'range(self.depth)':
+        _err(top, '_depth_range: the non-cubemap branch does not return range(self.depth)')
+    inner = _if_else(top.body)
+    if len(inner) != 1 or not isinstance(inner[0], ast.If):
+        _err(top, '_depth_range: version test not found')
+    vt = inner[0]
+    t = vt.test
+    if not (isinstance(t, ast.Compare) and len(t.ops) == 1 and type(t.ops[0]) in CMP and isinstance(t.comparators[0], ast.Constant)
+            and type(t.comparators[0].value) is int):
+        _err(vt, f'_depth_range: version test not understood: {ast.unparse(t)}')
+    left = ast.unparse(t.left)
+    if left == 'self.version[1]':
+        uses_param = False
+    elif pname is not None and left == pname and falls_back:
+        uses_param = True
+    else:
+        _err(vt, f'_depth_range: version test on {left}')
+    th, el = _if_else(vt.body), _if_else(vt.orelse)
+    if len(th) != 1 or len(el) != 1 or not isinstance(th[0], ast.Return) or not isinstance(el[0], ast.Return):
+        _err(vt, '_depth_range: branches of the version test must return a side list')
+    info = {'cmp': CMP[type(t.ops[0])], 'threshold': t.comparators[0].value,
+            'then': _side_list(tree, th[0].value), 'else': _side_list(tree, el[0].value), 'uses_param': uses_param, 'line': dr.lineno}
+
+    def calls(fn, owner):
+        out = []
+        for n in ast.walk(fn):
+            if isinstance(n, ast.Call) and isinstance(n.func, ast.Attribute) and n.func.attr == '_depth_range':
+                if ast.unparse(n.func.value) != owner or n.keywords and [k.arg for k in n.keywords] != [pname]:
+                    _err(n, f'{fn.name}: _depth_range call not understood: {ast.unparse(n)}')
+                arg = n.args[0] if n.args else (n.keywords[0].value if n.keywords else None)
+                out.append((n, arg))
+        return out
+
+    def stores(fn, name):
+        return sum(1 for n in ast.walk(fn) if isinstance(n, ast.Name) and n.id == name and isinstance(n.ctx, ast.Store))
+
+    # ---- save: which minor version is handed to _depth_range
+    save = _find_method(vtf, 'save')
+    cs = calls(save, 'self')
+    if len(cs) != 1:
+        _err(save, f'save: {len(cs)} calls of _depth_range')
+    call, arg = cs[0]
+    written_name = None
+    for n in ast.walk(save):
+        if isinstance(n, ast.Call) and ast.unparse(n.func) == 'struct.pack' and len(n.args) == 3 and isinstance(n.args[2], ast.Name) \
+                and isinstance(n.args[1], ast.Name) and 'major' in n.args[1].id:
+            written_name = n.args[2].id
+    if written_name is None:
+        _err(save, 'save: the struct.pack of the version numbers not found')
+    if arg is None or not uses_param:
+        info['save'] = 'MObject'
+    elif isinstance(arg, ast.Name) and arg.id == written_name and stores(save, written_name) == 1:
+        info['save'] = 'MWritten'
+    elif ast.unparse(arg) == 'self.version[1]':
+        info['save'] = 'MObject'
+    else:
+        _err(call, f'save: argument of _depth_range not understood: {ast.unparse(arg)}')
+    # ---- read: the object under construction gets the version found in the file before the side list is asked for
+    read = _find_method(vtf, 'read')
+    cr = calls(read, 'vtf')
+    if len(cr) != 1:
+        _err(read, f'read: {len(cr)} calls of _depth_range')
+    rcall, rarg = cr[0]
+    file_minor = None
+    for n in ast.walk(read):
+        if isinstance(n, ast.Assign) and isinstance(n.value, ast.Call) and ast.unparse(n.value.func) == 'struct.unpack' \
+                and isinstance(n.targets[0], (ast.Tuple, ast.List)) and len(n.targets[0].elts) == 2 \
+                and all(isinstance(e, ast.Name) for e in n.targets[0].elts) and 'major' in n.targets[0].elts[0].id:
+            file_minor = n.targets[0].elts[1].id
+    if file_minor is None or stores(read, file_minor) != 1:
+        _err(read, 'read: the unpack of the version numbers not found')
+    if rarg is None or not uses_param:
+        vs = [n for n in ast.walk(read) if isinstance(n, ast.Assign) and ast.unparse(n.targets[0]) == 'vtf.version']
+        if len(vs) != 1 or not (isinstance(vs[0].value, ast.Tuple) and len(vs[0].value.elts) == 2 and ast.unparse(vs[0].value.elts[1]) == file_minor):
+            _err(read, 'read: vtf.version is not set to the version found in the file')
+        if c15_norm.seq(vs[0]) > c15_norm.seq(rcall):
+            _err(rcall, 'read: _depth_range() is called before vtf.version is set')
+        info['read'] = 'MWritten'
+    elif isinstance(rarg, ast.Name) and rarg.id == file_minor:
+        info['read'] = 'MWritten'
+    else:
+        _err(rcall, f'read: argument of _depth_range not understood: {ast.unparse(rarg)}')
+    # ---- compute_mipmaps and __init__ work on the frames the object has: no version argument
+    for name in ('compute_mipmaps', '__init__'):
+        for c, a in calls(_find_method(vtf, name), 'self'):
+            if a is not None:
+                _err(c, f'{name}: _depth_range is called with a version')
+    # ---- what save() does for a side the object does not have (a 7.5 cubemap written as 7.2-7.4 has no sphere map)
+    loop = None
+    for n in ast.walk(save):
+        if isinstance(n, ast.For) and ast.unparse(n.iter) == 'reversed(range(self.mipmap_count))':
+            loop = n
+    if loop is None:
+        _err(save, 'save: frame loop not found')
+    mv = loop.target.id if isinstance(loop.target, ast.Name) else '?'
+    want_dims = [f'max(self.width >> {mv}, 1)', f'max(self.height >> {mv}, 1)']
+    blank = False
+    lookups: set[str] = set()       # distinct lookup expressions (a local that named the looked-up frame may have been inlined)
+    for n in ast.walk(loop):
+        if isinstance(n, ast.Try):
+            looks = [b for b in n.body if isinstance(b, ast.Assign) and isinstance(b.value, ast.Subscript) and ast.unparse(b.value.value) == 'self._frames']
+            if not looks:
+                continue
+            var = ast.unparse(looks[0].targets[0])
+            if len(n.body) != 1 or n.orelse or n.finalbody or len(n.handlers) != 1:
+                _err(n, 'save: try around the frame lookup not understood')
+            h = n.handlers[0]
+            if h.type is None or ast.unparse(h.type) != 'KeyError' or len(h.body) != 1 or not isinstance(h.body[0], ast.Assign) \
+                    or ast.unparse(h.body[0].targets[0]) != var:
+                _err(h, 'save: handler of the frame lookup not understood')
+            v = h.body[0].value
+            if isinstance(v, ast.Call) and ast.unparse(v.func) == 'Frame' and [ast.unparse(a) for a in v.args] == want_dims and not v.keywords:
+                blank = True
+            else:
+                _err(h, f'save: a missing side is replaced by {ast.unparse(v)}, expected Frame({", ".join(want_dims)})')
+        if isinstance(n, ast.Subscript) and ast.unparse(n.value) == 'self._frames':
+            lookups.add(ast.unparse(n))
+        if isinstance(n, ast.Call) and ast.unparse(n.func) == 'self._frames.get':
+            _err(n, 'save: self._frames.get(...) in the frame loop is not understood')
+    if len(lookups) != 1:
+        _err(loop, f'save: {len(lookups)} different frame table lookups in the frame loop')
+    info['missing_blank'] = blank
+    return info
+
+
+def _compute_from_previous(cm: ast.FunctionDef) -> bool:
+    """`for M in range(1, self.mipmap_count)`: the level self._frames[A, B, M] and self._frames[A, B, M - 1] of the SAME
+    frame and side are used (whatever the variables are called)"""
+    for n in ast.walk(cm):
+        if isinstance(n, ast.For) and isinstance(n.target, ast.Name) and ast.unparse(n.iter) == 'range(1, self.mipmap_count)':
+            m = n.target.id
+            subs = [x for x in ast.walk(n) if isinstance(x, ast.Subscript) and ast.unparse(x.value) == 'self._frames'
+                    and isinstance(x.slice, ast.Tuple) and len(x.slice.elts) == 3]
+            cur = {tuple(ast.unparse(e) for e in x.slice.elts[:2]) for x in subs if ast.unparse(x.slice.elts[2]) == m}
+            prev = {tuple(ast.unparse(e) for e in x.slice.elts[:2]) for x in subs if ast.unparse(x.slice.elts[2]) == f'{m} - 1'}
+            others = [x for x in subs if ast.unparse(x.slice.elts[2]) not in (m, f'{m} - 1')]
+            return len(cur) == 1 and cur == prev and not others
+    return False
 
 
 def layout_info() -> dict:
-    tree = ast.parse(src_text('vtf.py'))
+    tree = c15_norm.normalised_tree(src_text('vtf.py'))
     vtf = _find_class(tree, 'VTF')
     frame = _find_class(tree, 'Frame')
     info = {
         'mip': _mip_loop(_find_method(vtf, '__init__')),
         'save': _loop_nest(_find_method(vtf, 'save'), 'self.mipmap_count'),
         'read': _loop_nest(_find_method(vtf, 'read'), 'mipmap_count'),
-        'getitem': _pixel_access(_find_method(frame, '__getitem__')),
-        'setitem': _pixel_access(_find_method(frame, '__setitem__')),
+        'getitem': _pixel_access(frame, _find_method(frame, '__getitem__'), tree),
+        'setitem': _pixel_access(frame, _find_method(frame, '__setitem__'), tree),
     }
+    info['sides'] = _sides_info(tree, vtf)
     rd = info['read']['dims']
     info['read_dims_max_shr'] = (rd.get('mip_width') == f'max(width >> {info["read"]["var"]}, 1)'
                                  and rd.get('mip_height') == f'max(height >> {info["read"]["var"]}, 1)')
     # compute_mipmaps: for mipmap in range(1, self.mipmap_count): rescale_from(level mipmap - 1)
     cm = _find_method(vtf, 'compute_mipmaps')
-    s = ast.unparse(cm)
-    info['compute_from_previous_level'] = ('for mipmap in range(1, self.mipmap_count)' in s
-                                           and 'self._frames[frame_num, depth_side, mipmap - 1]' in s)
+    info['compute_from_previous_level'] = _compute_from_previous(cm)
     rw = ast.parse(src_text('_py_vtf_readwrite.py'))
     sd = next((n for n in rw.body if isinstance(n, ast.FunctionDef) and n.name == 'scale_down'), None)
     if sd is None:
@@ -883,8 +1282,10 @@ def _atoms_coq(atoms) -> str:
     return '[' + '; '.join(f'({v}, {c}, {b})' for v, c, b in atoms) + ']'
 
 
-def _order_coq(o) -> str:
+def _order_coq(o, sides_model: bool = False) -> str:
     m = {'mip_reversed': 'LMipReversed', 'frame': 'LFrame', 'depth_or_side': 'LDepthOrSide'}
+    if sides_model:
+        m = {'mip_reversed': 'VMipRev', 'frame': 'VFrame', 'depth_or_side': 'VSide'}
     return '[' + '; '.join(m[x] for x in o) + ']'
 
 
@@ -894,7 +1295,7 @@ def translate_layout() -> tuple[str, dict]:
     sc = info['scale']
     b = lambda x: 'true' if x else 'false'
     L = ['(* GENERATED by translate/c15_pixel.py from src/srctools/vtf.py and _py_vtf_readwrite.py. Do not edit. *)',
-         'From Coq Require Import ZArith NArith List Bool.', 'From SV Require Import Fmt.VtfLayout.',
+         'From Coq Require Import ZArith NArith List Bool.', 'From SV Require Import Fmt.VtfLayout Fmt.VtfSides.',
          'Import ListNotations.', '',
          f'(* VTF.__init__, vtf.py:{mip["line"]} *)',
          'Definition gen_mipcfg : mipcfg := {|',
@@ -906,8 +1307,14 @@ def translate_layout() -> tuple[str, dict]:
          'Fixpoint order_eqb (a b : list loopvar) : bool := match a, b with [], [] => true | x :: a\', y :: b\' => loopvar_eqb x y && order_eqb a\' b\' | _, _ => false end.',
          f'Definition save_order : list loopvar := {_order_coq(info["save"]["order"])}.',
          f'Definition read_order : list loopvar := {_order_coq(info["read"]["order"])}.',
+         f'Definition gen_save_order : list lvar := {_order_coq(info["save"]["order"], True)}.',
+         f'Definition gen_read_order : list lvar := {_order_coq(info["read"]["order"], True)}.',
+         f'(* VTF._depth_range, vtf.py:{info["sides"]["line"]}, and its callers save() / read() *)',
+         f'Definition gen_sidescfg : sidescfg := {{| sd_cmp := {info["sides"]["cmp"]}; sd_threshold := {info["sides"]["threshold"]}%Z;',
+         f'  sd_then := [{"; ".join(str(x) for x in info["sides"]["then"])}]%nat; sd_else := [{"; ".join(str(x) for x in info["sides"]["else"])}]%nat;',
+         f'  sd_save := {info["sides"]["save"]}; sd_read := {info["sides"]["read"]}; sd_missing_blank := {b(info["sides"]["missing_blank"])} |}}.',
          f'(* key tuples: save {info["save"]["key"]}  read {info["read"]["key"]} *)',
-         f'Definition frame_key_is_frame_depth_mip : bool := {b(info["save"]["key"] == ["frame_ind", "depth_or_cube", "data_mipmap"] and info["read"]["key"] == ["frame_ind", "depth_or_cube", "data_mipmap"])}.',
+         f'Definition frame_key_is_frame_depth_mip : bool := {b(info["save"]["key_roles"] == ["frame", "depth_or_side", "mip_reversed"] and info["read"]["key_roles"] == ["frame", "depth_or_side", "mip_reversed"])}.',
          f'Definition read_dims_are_max_shr_1 : bool := {b(info["read_dims_max_shr"])}.',
          f'Definition compute_mipmaps_from_previous_level : bool := {b(info["compute_from_previous_level"])}.',
          '',
@@ -932,6 +1339,7 @@ def translate_layout() -> tuple[str, dict]:
           f'Definition bilinear_terms : list (bool * bool) := [{"; ".join(f"({b(h)}, {b(v)})" for h, v in sc["terms"])}].',
           f'Definition bilinear_div : Z := {sc["div"]}.',
           f'Definition nearest_terms : list (bool * bool) := [{"; ".join(f"({b(h)}, {b(v)})" for h, v in sc["nearest"])}].',
+          f'Definition nearest_offsets_same_as_bilinear : bool := {b(sc["nearest_same_offsets"])}.',
           '']
     return '\n'.join(L), info
 
